@@ -26,21 +26,66 @@ pub fn run_cut(
   cut_step: usize,
   use_guard: bool,
 ) -> (Result<RunOut, String>, Option<CutInfo>) {
+  run_cut_x(flavor, pipe, policy, late, seed, cut_step, use_guard, false)
+}
+
+/// `emit_in_teardown`: every finalize callback that runs while unsubscribe() is in progress
+/// pushes one more item into hot input 0 (user code acting during the teardown)
+#[allow(clippy::too_many_arguments)]
+pub fn run_cut_x(
+  flavor: Flavor,
+  pipe: &Pipe,
+  policy: Policy,
+  late: bool,
+  seed: u64,
+  cut_step: usize,
+  use_guard: bool,
+  emit_in_teardown: bool,
+) -> (Result<RunOut, String>, Option<CutInfo>) {
   let info: Cell<Option<CutInfo>> = Cell::new(None);
+  let in_cut = std::rc::Rc::new(Cell::new(false));
   let out = run_pipe(flavor, pipe, policy, late, seed, &mut |w, step, _| {
     if step == cut_step && info.get().is_none() {
       let pending_timers = crate::vtime::pending_count();
       let ready_tasks = w.arena.ready().len();
       let after_terminal = w.log.notes(1).iter().any(|n| n.is_terminal());
+      if emit_in_teardown && pipe.n_hot > 0 {
+        let dbg = format!("{:?}", pipe.chain);
+        let mut ids: Vec<u32> = vec![];
+        for part in dbg.split("Finalize(").skip(1) {
+          if let Ok(id) = part.chars().take_while(|c| c.is_ascii_digit()).collect::<String>().parse::<u32>() {
+            ids.push(id);
+          }
+        }
+        for id in ids {
+          let (hl, ht, flag, fl) = (w.l.hot[0].clone(), w.t.hot[0].clone(), in_cut.clone(), flavor);
+          set_local_cb(
+            id,
+            std::rc::Rc::new(move |_n: &N| {
+              if flag.get() {
+                use rxrust::observer::Observer;
+                if fl == Flavor::Threads {
+                  ht.clone().next(V::I(777));
+                } else {
+                  hl.clone().next(V::I(777));
+                }
+              }
+            }),
+          );
+        }
+      }
       if use_guard {
         w.guard(0);
       }
       w.log.mark(0, "unsub_call", step as i64);
+      in_cut.set(true);
       w.unsubscribe(0);
+      in_cut.set(false);
       let ret_seq = w.log.mark(0, "unsub_ret", step as i64);
       info.set(Some(CutInfo { ret_seq, pending_timers, ready_tasks, step, after_terminal }));
     }
   });
+  clear_local_cbs();
   (out, info.get())
 }
 
@@ -78,6 +123,7 @@ pub fn run(cfg: &Cfg, rep: &mut Report) {
     let late = r.chance(1, 2);
     let seed = r.next();
     let use_guard = r.chance(1, 3);
+    let emit_in_teardown = r.chance(1, 3);
     // dry run: how many steps does this schedule have?
     let first_terminal_step: Cell<Option<usize>> = Cell::new(None);
     let dry = run_pipe(flavor, &pipe, policy, late, seed, &mut |w, step, _| {
@@ -96,7 +142,10 @@ pub fn run(cfg: &Cfg, rep: &mut Report) {
     let alive = first_terminal_step.get().unwrap_or(steps);
     let cut_step = if r.chance(1, 6) { r.below(steps + 1) } else { r.below(alive + 1) };
     rep.evaluations += 1;
-    let (out, info) = run_cut(flavor, &pipe, policy, late, seed, cut_step, use_guard);
+    let (out, info) = run_cut_x(flavor, &pipe, policy, late, seed, cut_step, use_guard, emit_in_teardown);
+    if emit_in_teardown && format!("{:?}", pipe.chain).contains("Finalize(") {
+      rep.count("cuts_with_finalize_callbacks_emitting_during_teardown", 1);
+    }
     for n in pipe.chain.api_names() {
       rep.set("operators_covered", n);
     }
@@ -127,7 +176,7 @@ pub fn run(cfg: &Cfg, rep: &mut Report) {
       let mut still = |c: &crate::ast::Chain| {
         let mut p2 = pipe.clone();
         p2.chain = c.clone();
-        let (o, inf) = run_cut(flavor, &p2, policy, late, seed, cut_step, use_guard);
+        let (o, inf) = run_cut_x(flavor, &p2, policy, late, seed, cut_step, use_guard, emit_in_teardown);
         late_delivery(&o, &inf).is_some()
       };
       let small = shrink_chain(&pipe.chain, &mut still);
